@@ -77,6 +77,7 @@ Loads == [
                   L("athessian", "au", 7) >>,
   wfx |-> << D("atnums"), L("atcoords", "au", 12), L("energy", "au", 12), L("atgradient", "au", 12), D("title"), L("mo.occs", "au", 12),
              L("mo.energies", "au", 8) >>,
+  mwfn |-> << D("atnums"), L("atcoords", "angstrom", 8), L("atcorenums", "au", 1) >>,
   gamess |-> << D("atnums"), L("atcoords", "angstrom", 10), L("energy", "au", 10), L("atgradient", "au", 14), L("athessian", "au", 9), D("title") >>,
   gaussianinput |-> << D("atnums"), L("atcoords", "angstrom", 8), D("title") >>,
   fchk |-> << D("atnums"), L("atcoords", "au", 8), L("atcorenums", "au", 8), L("energy", "au", 8), L("atmasses", "amu", 8),
